@@ -272,7 +272,7 @@ def run(ctx):
     ctx.set("resumes_completed", tot["resumed"])
     ctx.set("resumes_refused_up_front", tot["refused_up_front"])
     ctx.set("resumes_from_a_state_with_a_partially_written_op", tot["partial_states"])
-    ctx.set("programs", per)
+    ctx.set("program_table", per)
     ctx.set("rule", "crash state = initial store + a prefix of the clean run's ordered mutation log (every prefix), plus (thorough) every non-prefix subset of "
             "completed tasks of one op; each state resumed with compute(resume=True) on the controlled and the virtual executor; "
             "distinct_nontrivial = distinct crash states")
